@@ -445,10 +445,14 @@ fn instance(doc: &Value, schema: &Value, mode: Mode, stack: &mut Vec<String>, de
         if let Some(all) = s["allOf"].as_array() {
             let mut merged = serde_json::Map::new();
             let mut single: Option<Value> = None;
+            // an alias (one reference, otherwise only annotations) is the schema it names: same nesting depth, so that the
+            // instance of a top-level alias of a nullable schema is the non-null form, as for the schema itself
+            let alias_like = all.iter().filter(|m| m.get("$ref").is_some()).count() == 1 && all.iter().all(|m| m.get("$ref").is_some() || (m.get("properties").is_none() && m.get("type").is_none() && m.get("allOf").is_none() && m.get("additionalProperties").is_none()));
+            let depth = if alias_like && depth == 0 { 0usize.wrapping_sub(1) } else { depth };
             for m in all {
                 // a member that only annotates (a description next to a reference) says nothing about the instance
                 if m.get("$ref").is_none() && m.get("properties").is_none() && m.get("type").is_none() && m.get("allOf").is_none() && m.get("additionalProperties").is_none() { continue; }
-                match instance(doc, m, mode, stack, depth + 1)? { Value::Object(o) => { for (k, v) in o { merged.insert(k, v); } } other => single = Some(other) }
+                match instance(doc, m, mode, stack, depth.wrapping_add(1))? { Value::Object(o) => { for (k, v) in o { merged.insert(k, v); } } other => single = Some(other) }
             }
             if let (Some(v), true) = (&single, merged.is_empty()) { return Some(v.clone()); }
             return Some(Value::Object(merged));
@@ -537,8 +541,24 @@ fn nullable_behind_allof(doc: &Value, s: &Value, depth: usize) -> bool {
     if depth > 6 { return false; }
     let (s, _) = resolve(doc, s);
     let wrapper = |p: &Value| -> bool {
-        if p["nullable"] == serde_json::json!(true) { return false; }
-        match p["allOf"].as_array() { Some(a) if a.len() == 1 && a[0].get("$ref").is_some() => { let (t, _) = resolve(doc, &a[0]); t["nullable"] == serde_json::json!(true) } _ => false }
+        // the position itself, or the alias component it refers to, is an allOf of one reference (plus annotations) ...
+        let mut cur = p.clone();
+        for _ in 0..4 {
+            if cur["nullable"] == serde_json::json!(true) { return false; }
+            let (r, _) = resolve(doc, &cur);
+            let r = r.clone();
+            if r["nullable"] == serde_json::json!(true) && cur.get("$ref").is_some() && cur != *p { return true; }
+            if r["nullable"] == serde_json::json!(true) { return false; }
+            let Some(a) = r["allOf"].as_array() else { return false };
+            let refs: Vec<&Value> = a.iter().filter(|m| m.get("$ref").is_some()).collect();
+            let plain = a.iter().all(|m| m.get("$ref").is_some() || (m.get("properties").is_none() && m.get("type").is_none()));
+            if refs.len() != 1 || !plain { return false; }
+            // ... whose target is declared nullable
+            let (t, _) = resolve(doc, refs[0]);
+            if t["nullable"] == serde_json::json!(true) { return true; }
+            cur = refs[0].clone();
+        }
+        false
     };
     if let Some(p) = s["properties"].as_object() { if p.values().any(|x| wrapper(x) || nullable_behind_allof(doc, x, depth + 1)) { return true; } }
     if let Some(a) = s["allOf"].as_array() { if a.iter().any(|x| nullable_behind_allof(doc, x, depth + 1)) { return true; } }
